@@ -2,26 +2,32 @@
 """Copy the verified sub-agent mutants from /tmp/mut into /verif/seeded/<id>/ with an augmented meta.json.
 Inputs: /tmp/mut/verify.tsv (tools/verify_mutants.sh) and /tmp/mut/detect.tsv (tools/detect_mutants.sh)."""
 import json, os, shutil, subprocess
+MUT = os.environ.get('MUT', '/tmp/mut')
+SUFFIX = os.environ.get('SUFFIX', '')  # e.g. r2- -> seeded/C01-r2-m1
+SKIP = set(os.environ.get('SKIP', '').split())  # e.g. 'C02/m1'
 head = subprocess.run(['git', '-C', '/repo', 'log', '--format=%h', '-1'], capture_output=True, text=True).stdout.strip()
 ver = {}
-for l in open('/tmp/mut/verify.tsv'):
+for l in open(MUT + '/verify.tsv'):
     f = l.rstrip('\n').split('\t')
     if len(f) >= 5:
         ver[(f[0], f[1])] = f
 det = {}
-for l in open('/tmp/mut/detect.tsv'):
+for l in open(MUT + '/detect.tsv'):
     f = l.rstrip('\n').split('\t')
     if len(f) >= 4:
         det.setdefault((f[0], f[1]), []).append({"check": f[2], "exit": int(f[3].split('=')[1]), "signatures": [s for s in (f[4] if len(f) > 4 else '').split(';') if s]})
 kept, dropped = [], []
 for (p, m), v in sorted(ver.items()):
-    src = '/tmp/mut/%s/%s' % (p, m)
+    src = MUT + '/%s/%s' % (p, m)
+    if '%s/%s' % (p, m) in SKIP:
+        dropped.append((p, m, 'skipped'))
+        continue
     ok = v[2] == 'suite=70/0' and v[3].endswith('=101') and v[4].endswith('=0')
     d = det.get((p, m), [])
     if not ok:
         dropped.append((p, m, v[2:5]))
         continue
-    dst = '/verif/seeded/%s-%s' % (p, m)
+    dst = '/verif/seeded/%s-%s%s' % (p, SUFFIX, m)
     os.makedirs(dst, exist_ok=True)
     for fn in ('patch.diff', 'patch.orig.diff', 'demo.diff', 'DEMO_CMD.txt'):
         if os.path.exists(os.path.join(src, fn)):
